@@ -147,7 +147,7 @@ class C04(Oracle):
             ref = refmodel.ref_eq_document(da, db)
             self.count("prov_compare_runs")
             self.probe("prov_compare_equal" if ref else "prov_compare_different")
-            if code not in (0, 1) or (code == 0) != ref:
+            if (code == 0) != ref:
                 raise Violation("C04", "prov-compare", "exit-status",
                                 {"operation": op, "exit_status": code, "reference_equal": ref})
 
